@@ -164,6 +164,59 @@ def arith_shift(rep, prog, rule, floor=10):
     rep.floor(rule, "right shifts of accumulators in SIMD convolution kernels", n, floor)
 
 
+PIXEL_LOAD_RE = re.compile(r"(^|::)(loadu_si128|loadu_si256|loadl_epi64|loadl_epi32|loadl_epi16|"
+                           r"_mm(256)?_loadu_si(128|256)|_mm_loadl_epi64|mm_cvtepu8_epi32\w*|"
+                           r"mm_cvtsi32_si128_from_u8|vld1q?_u(8|16)\w*|load_v128|v128_load\w*)$")
+
+
+def pixel_sign(rep, prog, rule, floor=20):
+    rep.rule(rule, "in the SIMD convolution kernels a vector that holds SOURCE PIXELS (loaded from a row "
+             "of pixels and not yet multiplied) is never shifted right ARITHMETICALLY: pixel components "
+             "are unsigned, `_mm_srai_epi32::<16>(source)` to bring the odd 16-bit pixels down sign-extends "
+             "every component >= 0x8000 into a negative factor, so bright pixels enter the sum with a "
+             "negative weight (result below the smallest source value, not monotone). The arithmetic "
+             "shifts of the kernels belong to the accumulators (C18.arith-shift)")
+    from ..props.c14 import _taint
+    n = 0
+    for f, ty, be in kernels(prog):
+        for g in [f] + f.closures():
+            pix, acc = set(), set()
+            for c in g.calls():
+                nm = c.name or ""
+                if ACCUM_RE.search(nm) and c.dest:
+                    acc.add(c.dest[0])
+                if PIXEL_LOAD_RE.search(nm) and c.dest and c.args:
+                    a0 = c.args[0]
+                    t0 = g.local_ty(a0[1][0]) if a0[0] in ("c", "m") and a0[1] else ""
+                    if "Pixel<" in (t0 or "") or re.search(r"\[u(8|16)\]|\*const u(8|16)|__m(128|256)i", t0 or ""):
+                        if "i16" in (t0 or "") or "i32" in (t0 or ""):
+                            continue            # coefficient buffers
+                        pix.add(c.dest[0])
+            if not pix:
+                continue
+            pt, p_op = _taint(prog, g, pix)
+            at, a_op = _taint(prog, g, acc) if acc else (set(), lambda o: False)
+            for c in g.calls():
+                nm = c.name or ""
+                if not c.args:
+                    continue
+                lg, ar = LOGICAL_SHR_RE.search(nm), ARITH_SHR_RE.search(nm)
+                if not (lg or ar):
+                    continue
+                if not p_op(c.args[0]) or a_op(c.args[0]):
+                    continue
+                n += 1
+                rep.touch(g)
+                key = "%s|%s" % (g.name, short(nm))
+                if ar:
+                    rep.bad(rule, key + "|sign-extended", c.at,
+                            "%s shifts a vector of source pixels with the arithmetic %s: components >= "
+                            "half of the range become negative factors of the multiply-add" % (g.name, short(nm)))
+                else:
+                    rep.ok(rule, key, c.at, "logical shift of pixel data")
+    rep.note("%s: %d right shifts of unmultiplied pixel vectors seen" % (rule, n))
+
+
 def zero_extend(rep, prog, rule):
     rep.rule(rule, "pixel data is never sign-extended on its way to the multiply-add: no "
              "sign-extending widening intrinsic is applied in a convolution or alpha kernel, and "
